@@ -263,6 +263,7 @@ extern int nthr;
 extern int cur;  // running thread
 extern __thread int tls_tid;
 extern __thread int tls_in_rt;
+extern __thread int tls_user_access;  // run-time is dereferencing a program-supplied address on the program's behalf
 extern int64_t vnow;
 extern uint64_t op_seq;
 extern uint64_t write_seq;  // state-changing operations executed so far (drives vrt_yield)
